@@ -314,6 +314,8 @@ func (e *Engine) loopMods(c *Ctx, s *State, header *ssa.BasicBlock) []string {
 	sc := s.clone()
 	savedW, savedScout := c.written, c.scout
 	savedStop, savedDepth := c.scoutBody, c.scoutDepth
+	savedLR := c.localRefs
+	c.localRefs = nil
 	c.written = map[string]bool{}
 	c.scout++
 	fr := sc.top()
@@ -326,6 +328,7 @@ func (e *Engine) loopMods(c *Ctx, s *State, header *ssa.BasicBlock) []string {
 	mods := sortedBools(c.written)
 	c.written, c.scout = savedW, savedScout
 	c.scoutBody, c.scoutDepth = savedStop, savedDepth
+	c.localRefs = savedLR
 	if c.written != nil {
 		for _, m := range mods {
 			c.written[m] = true
@@ -349,6 +352,8 @@ func (e *Engine) modsOf(c *Ctx, fn *ssa.Function) []string {
 	savedW, savedScout, savedDepth := c.written, c.scout, c.depth
 	savedStop, savedSD := c.scoutBody, c.scoutDepth
 	c.scoutBody, c.scoutDepth = nil, 0
+	savedLR := c.localRefs
+	c.localRefs = nil
 	c.written = map[string]bool{}
 	c.scout++
 	c.depth = 0
@@ -364,6 +369,12 @@ func (e *Engine) modsOf(c *Ctx, fn *ssa.Function) []string {
 	mods := sortedBools(c.written)
 	c.written, c.scout, c.depth = savedW, savedScout, savedDepth
 	c.scoutBody, c.scoutDepth = savedStop, savedSD
+	c.localRefs = savedLR
+	if c.written != nil {
+		for _, m := range mods {
+			c.written[m] = true
+		}
+	}
 	e.modsCache[fn] = mods
 	return mods
 }
